@@ -20,7 +20,7 @@ type c06Key struct {
 
 func c06Universe(rnd *rand.Rand, zones uint64) []c06Key {
 	var keys []c06Key
-	hosts := []string{"a.example", "b.example", "a.example.org"}
+	hosts := []string{"a.example", "b.example", "a.example.org", "a.example:8080", "A.example"}
 	long := "/long/" + strings.Repeat("x", 1800)
 	uris := []string{"/p/1", "/p/1/", "/p/11", "/p/1?x=1", "/p/1?x=2", "/p/1?x=1&y=", "/p/1?x=1&y", "/P/1", "/p/%31", "/p/1?", "/p/1?x=%31", long + "a", long + "b", long + "a?q=1", "/", "/?"}
 	for _, h := range hosts {
@@ -44,7 +44,7 @@ func c06Universe(rnd *rand.Rand, zones uint64) []c06Key {
 }
 
 func c06(r *hx.Run) {
-	r.Rule = "universe of 96 near-identical keys (paths differing by a slash/digit/case/escape, queries differing in one byte or only by '?', three hosts, GET vs HEAD, 1.8 kB URIs differing in the last byte) plus 60 keys pre-selected with MemHash to share one shard; caches of size 8, 24 and 64 plus one of size 16 backed by a store (constant eviction, re-creation and reload from the store); 32 concurrent clients with hot/cold mix; every 2xx response must echo exactly the requester's method, Host and request-URI (body identification line and echo headers written by the origin). Plus a dispatcher-level run over one million generated keys checking entry identity. Non-trivial/distinct = distinct key that was answered at least once after having been evicted."
+	r.Rule = "universe of 160 near-identical keys (paths differing by a slash/digit/case/escape, queries differing in one byte or only by '?', five hosts incl. one with a port and one differing in case only, GET vs HEAD, 1.8 kB URIs differing in the last byte) plus 60 keys pre-selected with MemHash to share one shard; caches of size 8, 24 and 64 plus one of size 16 backed by a store (constant eviction, re-creation and reload from the store); 32 concurrent clients with hot/cold mix; every 2xx response must echo exactly the requester's method, Host and request-URI (body identification line and echo headers written by the origin). Plus a dispatcher-level run over one million generated keys checking entry identity. Non-trivial/distinct = distinct key that was answered at least once after having been evicted."
 	r.Assume = []string{"-race build (implies checkptr for the zero-copy key string)", "the origin echoes what it saw; a mismatch between echo and request can only come from pike serving another key's entry"}
 	rnd := rand.New(rand.NewSource(r.Seed))
 	sizes := []int{8, 24, 64, 16}
